@@ -3,7 +3,7 @@
    (contents, order, size, rank designated by the returned iterator/reference). *)
 From Coq Require Import ZArith List Bool Lia Sorting.Sorted Sorting.Permutation.
 From Common Require Import ListAux.
-From Seq Require Import SeqSpec SeqModel SeqSortProofs SeqPoolProofs.
+From Seq Require Import SeqSpec SeqModel SeqSortProofs SeqSortPtrProofs SeqPoolProofs.
 Import ListNotations.
 Local Open Scope nat_scope.
 
@@ -182,6 +182,9 @@ Proof.
     destruct (nl_append_all_refines (vals (nodes (lget j w))) nl_empty nl_inv_empty) as (I1 & Hv).
     split; [apply linv_upd; assumption|]. rewrite labs_upd, sget_labs, Hv. reflexivity.
   - (* LAssign *)
+    destruct (Nat.eqb i j) eqn:Eij.
+    { apply Nat.eqb_eq in Eij. subst j. inversion H; subst w' r. split; [exact I|].
+      unfold sget. rewrite upd_nth_id. reflexivity. }
     inversion H; subst w' r.
     destruct (nl_clear_refines _ (linv_get i w I)) as (I0 & Hc).
     destruct (nl_append_all_refines (vals (nodes (lget j w))) _ I0) as (I1 & Hv).
